@@ -110,9 +110,37 @@ WithWrappers == {Coll("list", "builtin", w) : w \in Nestable} \cup {Opt(w) : w \
 
 Universe == Depth2 \cup WithWrappers
 
+(*********************** extended grammar (C15) ****************************)
+\* annotations outside U that must still *build*: Any, object, bare generics, TypeVars, Callable, type[X],
+\* user generics bare and parameterised, classes without hints
+Ext(n) == [k |-> "ext", n |-> n]
+ExtNames == {"Any", "object", "list", "dict", "tuple", "set", "frozenset", "typing.List", "typing.Dict", "typing.Tuple",
+             "typing.Set", "typing.Mapping", "typing.Sequence", "typing.Iterable", "T_free", "T_bound", "T_constr",
+             "Callable", "CallableBare", "CallableEll", "type[int]", "typing.Type", "Box", "Box[int]", "Box[T]", "NoHints",
+             "Empty", "WithAny"}
+\* positions whose value must come back untouched
+PassThroughNames == {"Any", "object", "T_free", "Callable", "CallableBare", "CallableEll", "type[int]", "typing.Type"}
+ExtLeaves == {Ext(n) : n \in ExtNames}
+ExtRep == {P("int"), P("str"), Cls("D1"), Opt(P("date"))}
+FieldOf(a) == [k |-> "fieldof", a |-> a]          \* a generated dataclass with one field of type a
+TwoVariadic(a, b) == Tup(<<Coll("tuple", "builtin", a), Coll("tuple", "builtin", b)>>)
+ExtCtors(S) ==
+       {Coll("list", "builtin", a) : a \in S} \cup {Coll("list", "Sequence", a) : a \in S}
+  \cup {Coll("tuple", "builtin", a) : a \in S} \cup {Coll("deque", "builtin", a) : a \in S}
+  \cup {Map("builtin", P("str"), a) : a \in S} \cup {Map("Mapping", P("str"), a) : a \in S}
+  \cup {Tup(<<a, P("int")>>) : a \in S} \cup {TwoVariadic(a, P("int")) : a \in S}
+  \cup {Opt(a) : a \in S} \cup {Un("Union", <<P("int"), a>>) : a \in S \ {P("int")}}
+  \cup {FieldOf(a) : a \in S}
+ExtDepth1 == ExtLeaves \cup ExtCtors(ExtLeaves \cup ExtRep)
+ExtMid == IF Profile = "ext_quick"
+          THEN {Coll("list", "builtin", Ext("Any")), Map("builtin", P("str"), Ext("T_free")), FieldOf(Ext("Callable")),
+                Opt(Ext("Box[int]")), Coll("tuple", "builtin", Ext("object")), FieldOf(Ext("list"))}
+          ELSE ExtCtors(ExtLeaves)
+ExtUniverse == ExtDepth1 \cup ExtCtors(ExtMid)
+
 VARIABLES T, phase
 vars == <<T, phase>>
-Init == T \in Universe /\ phase = "emit"
+Init == T \in (IF Profile \in {"ext_quick", "ext_full"} THEN ExtUniverse ELSE Universe) /\ phase = "emit"
 Step == phase = "emit" /\ phase' = "done" /\ T' = T /\ (Emit => PrintT(ToJson(T)))
 Spec == Init /\ [][Step]_vars
 
